@@ -409,6 +409,18 @@ def run_case(case):
                     states += 1
                     nontriv += 1
             os.remove(path)
+            # the same forecast written with an extra event below the minimum magnitude in every non-empty catalog and loaded
+            # with a magnitude filter: every pass (each test makes one or two) must see the filtered catalogs
+            extra = lambda j: [(f'x{j}', 1262304000000 + 777000 + j, origins[0][1] + 0.05, origins[0][0] + 0.05, 10.0, mags[0] - 1.0)]
+            fixtures.write_forecast_csv(path, [events(c, origins, mags, 10 * j) + (extra(j) if c else []) for j, c in enumerate(forecast)])
+            for store in (True, False):
+                fc = csep.load_catalog_forecast(path, region=reg, store=store, name='fc', filters=[f'magnitude >= {mags[0]!r}'], apply_filters=True)
+                for obs_types in obs_list[:3]:
+                    e, cls = run_tests(fc, forecast, obs_types, reg, origins, mags, failures, hsh, None, f'file,filtered,store={store}')
+                    evals += e
+                    states += 1
+                    nontriv += 1
+            os.remove(path)
     elif k == 'resample':
         obs_list = [[], [0], [1], [0, 1], [0, 0], [3, 5]]
         for forecast in case['forecasts']:
